@@ -1,6 +1,6 @@
 //! Hook-level unit cases: dequantisation (L, IDC), vector arithmetic (M, A, LP, MED, N), IDCT (T).
 
-use crate::util::hex;
+use crate::util::{hex, unhex};
 use h263_rs::verif_hooks::*;
 use h263_rs::PictureOption;
 
@@ -178,9 +178,13 @@ pub fn idct(a: &[&str]) -> String {
     let bpl: usize = a[0].parse().expect("bpl");
     let spl: usize = a[1].parse().expect("spl");
     let n: usize = a[2].parse().expect("len");
-    let pred: u8 = a[3].parse().expect("pred");
     let blocks: Vec<DecodedDctBlock> = a[4..].iter().map(|s| parse_block(s)).collect();
-    let mut out = vec![pred; n];
+    // the prediction: one value for the whole plane, or `p<hex plane>`
+    let mut out = match a[3].strip_prefix('p') {
+        Some(h) => unhex(h),
+        None => vec![a[3].parse::<u8>().expect("pred"); n],
+    };
+    assert_eq!(out.len(), n);
     idct_channel(&blocks, &mut out, bpl, spl);
     format!("T {}", hex(&out))
 }
